@@ -3,7 +3,12 @@ package refl
 import (
 	"fmt"
 	"go/ast"
+	"go/types"
+	"sort"
 	"strconv"
+	"strings"
+
+	"google.golang.org/protobuf/reflect/protoreflect"
 
 	"verif/checker/internal/core"
 	"verif/checker/internal/model"
@@ -47,60 +52,724 @@ func arms(sw *ast.SwitchStmt) (map[string]*ast.CaseClause, *ast.CaseClause, []st
 	return m, def, dups
 }
 
-// DumpAcc prints canonical arms (development aid).
-func DumpAcc(c *core.Ctx, only string) {
-	for _, g := range sources(c) {
-		for _, m := range g.Msgs {
-			if only != "" && m.Q() != only {
-				continue
-			}
-			for _, name := range []string{"Has", "Clear", "Get", "Set", "Mutable", "NewField"} {
-				fd := m.Methods[name]
-				if fd == nil {
-					continue
-				}
-				sw := nameSwitch(fd)
-				if sw == nil {
-					fmt.Println(m.Q(), name, "NO SWITCH")
-					continue
-				}
-				am, def, _ := arms(sw)
-				for _, f := range m.Fields {
-					cc := am[string(f.Desc.FullName())]
-					if cc == nil {
-						fmt.Println(m.Q(), name, f.Q(), "MISSING")
-						continue
-					}
-					cn := newCanon(g.Info, fd)
-					s := cn.stmts(cc.Body)
-					fmt.Printf("%s %-8s %-40s %s %s\n", m.Q(), name, model.Shape(f.Desc), s, cn.err)
-				}
-				if def != nil {
-					cn := newCanon(g.Info, fd)
-					fmt.Printf("%s %-8s %-40s %s\n", m.Q(), name, "default", cn.stmts(def.Body))
-				}
-			}
-			for k, fd := range g.Funcs {
-				if len(k) > 3 && k[0] == '_' && (contains(k, "_"+m.GoName+"_")) {
-					cn := newCanon(g.Info, fd)
-					fmt.Printf("VIEW %-34s %s %s\n", k, cn.stmts(fd.Body.List), cn.err)
-				}
-			}
-			for _, name := range []string{"Range", "WhichOneof"} {
-				if fd := m.Methods[name]; fd != nil {
-					cn := newCanon(g.Info, fd)
-					fmt.Printf("%s %-8s %s %s\n", m.Q(), name, cn.stmts(fd.Body.List), cn.err)
-				}
-			}
-		}
-	}
+func tq(t types.Type) string {
+	return types.TypeString(t, func(p *types.Package) string { return p.Name() })
 }
 
-func contains(s, sub string) bool {
-	for i := 0; i+len(sub) <= len(s); i++ {
-		if s[i:i+len(sub)] == sub {
+// kinds table ---------------------------------------------------------------
+
+func valueCtor(k protoreflect.Kind) string {
+	switch k {
+	case protoreflect.BoolKind:
+		return "Bool"
+	case protoreflect.Int32Kind, protoreflect.Sint32Kind, protoreflect.Sfixed32Kind:
+		return "Int32"
+	case protoreflect.Int64Kind, protoreflect.Sint64Kind, protoreflect.Sfixed64Kind:
+		return "Int64"
+	case protoreflect.Uint32Kind, protoreflect.Fixed32Kind:
+		return "Uint32"
+	case protoreflect.Uint64Kind, protoreflect.Fixed64Kind:
+		return "Uint64"
+	case protoreflect.FloatKind:
+		return "Float32"
+	case protoreflect.DoubleKind:
+		return "Float64"
+	case protoreflect.StringKind:
+		return "String"
+	case protoreflect.BytesKind:
+		return "Bytes"
+	case protoreflect.EnumKind:
+		return "Enum"
+	case protoreflect.MessageKind:
+		return "Message"
+	}
+	return "?"
+}
+
+// wrapV renders protoreflect.ValueOf<K>(E) for a Go expression E of the field's Go type.
+func wrapV(k protoreflect.Kind, e string) string {
+	switch k {
+	case protoreflect.EnumKind:
+		return "protoreflect.ValueOfEnum(protoreflect.EnumNumber(" + e + "))"
+	case protoreflect.MessageKind:
+		return "protoreflect.ValueOfMessage(" + e + ".ProtoReflect())"
+	}
+	return "protoreflect.ValueOf" + valueCtor(k) + "(" + e + ")"
+}
+
+// unwrapV renders the conversion of protoreflect.Value V to the Go type T of the kind; alternatives accepted.
+func unwrapV(k protoreflect.Kind, v string, T types.Type) []string {
+	switch k {
+	case protoreflect.BoolKind:
+		return []string{v + ".Bool()"}
+	case protoreflect.Int32Kind, protoreflect.Sint32Kind, protoreflect.Sfixed32Kind:
+		return []string{"int32(" + v + ".Int())"}
+	case protoreflect.Int64Kind, protoreflect.Sint64Kind, protoreflect.Sfixed64Kind:
+		return []string{v + ".Int()"}
+	case protoreflect.Uint32Kind, protoreflect.Fixed32Kind:
+		return []string{"uint32(" + v + ".Uint())"}
+	case protoreflect.Uint64Kind, protoreflect.Fixed64Kind:
+		return []string{v + ".Uint()"}
+	case protoreflect.FloatKind:
+		return []string{"float32(" + v + ".Float())"}
+	case protoreflect.DoubleKind:
+		return []string{v + ".Float()"}
+	case protoreflect.StringKind:
+		return []string{v + ".Interface().(string)", v + ".String()"}
+	case protoreflect.BytesKind:
+		return []string{v + ".Bytes()"}
+	case protoreflect.EnumKind:
+		return []string{tq(T) + "(" + v + ".Enum())"}
+	case protoreflect.MessageKind:
+		return []string{v + ".Message().Interface().(" + tq(T) + ")"}
+	}
+	return []string{"?"}
+}
+
+// zeroLit renders the zero value as the templates write it in a typed context.
+func zeroLit(k protoreflect.Kind, T types.Type) []string {
+	switch k {
+	case protoreflect.BoolKind:
+		return []string{"false"}
+	case protoreflect.StringKind:
+		return []string{`""`}
+	case protoreflect.BytesKind:
+		return []string{"nil", "[]byte(nil)"}
+	case protoreflect.MessageKind:
+		return []string{"nil"}
+	}
+	// numerics: untyped 0 or typed T(0)
+	return []string{"0", tq(T) + "(0)"}
+}
+
+func isNumericKind(k protoreflect.Kind) bool {
+	switch k {
+	case protoreflect.BoolKind, protoreflect.StringKind, protoreflect.BytesKind, protoreflect.MessageKind:
+		return false
+	}
+	return true
+}
+
+// view type of a list/map field: _<Msg>_<num>_list / _map
+func viewType(g *model.GenPkg, f *model.Field) (*types.Named, string) {
+	suffix, fieldName := "_list", "list"
+	if f.Desc.IsMap() {
+		suffix, fieldName = "_map", "m"
+	}
+	name := fmt.Sprintf("_%s_%d%s", f.Msg.GoName, f.Desc.Number(), suffix)
+	if tn, ok := g.Types.Scope().Lookup(name).(*types.TypeName); ok {
+		if n, ok := tn.Type().(*types.Named); ok {
+			return n, fieldName
+		}
+	}
+	return nil, fieldName
+}
+
+func in(s string, alts []string) bool {
+	for _, a := range alts {
+		if s == a {
 			return true
 		}
 	}
 	return false
+}
+
+func cross(prefix string, alts []string, suffix string) []string {
+	var out []string
+	for _, a := range alts {
+		out = append(out, prefix+a+suffix)
+	}
+	return out
+}
+
+// expected forms ---------------------------------------------------------------
+
+type accExpect struct {
+	has, clear, get, set, mutable, newField []string
+	clearBug                               string // the unconditional oneof clear (F9)
+}
+
+func expectFor(g *model.GenPkg, f *model.Field) (accExpect, error) {
+	var e accExpect
+	fd := f.Desc
+	k := fd.Kind()
+	switch {
+	case fd.IsList() || fd.IsMap():
+		L := "x." + f.GoName
+		vt, vf := viewType(g, f)
+		if vt == nil {
+			return e, fmt.Errorf("view type for %s not found", f.Q())
+		}
+		V := "&" + tq(vt)
+		ctor := "protoreflect.ValueOfList"
+		if fd.IsMap() {
+			ctor = "protoreflect.ValueOfMap"
+		}
+		T := tq(f.Var.Type())
+		e.has = []string{"return (len(" + L + ") != 0)", "return (len(" + L + ") > 0)"}
+		e.clear = []string{L + " = nil"}
+		e.get = []string{"if (len(" + L + ") == 0) {return " + ctor + "(" + V + "{})}; return " + ctor + "(" + V + "{" + vf + ": &" + L + "})"}
+		accessor := ".List()"
+		if fd.IsMap() {
+			accessor = ".Map()"
+		}
+		e.set = []string{L + " = *$2" + accessor + ".(*" + tq(vt) + ")." + vf}
+		init := T + "{}"
+		if fd.IsMap() {
+			init = "make(" + T + ")"
+		}
+		e.mutable = []string{"if (" + L + " == nil) {" + L + " = " + init + "}; return " + ctor + "(" + V + "{" + vf + ": &" + L + "})"}
+		e.newField = []string{"%t1 := " + init + "; return " + ctor + "(" + V + "{" + vf + ": &%t1})"}
+	case f.Oneof != nil:
+		O := "x." + f.Oneof.GoName
+		W := tq(f.Wrapper)
+		T := f.WrapperField.Type()
+		F := f.GoName
+		e.has = []string{"if (" + O + " == nil) {return false} else if _, %ok := " + O + ".(*" + W + "); %ok {return true} else {return false}",
+			"_, %t1 := " + O + ".(*" + W + "); return %t1"}
+		e.clearBug = O + " = nil"
+		e.clear = []string{"if _, %ok := " + O + ".(*" + W + "); %ok {" + O + " = nil}"}
+		if k == protoreflect.MessageKind {
+			MT := tq(T.(*types.Pointer).Elem())
+			z := "protoreflect.ValueOfMessage(*" + MT + "(nil).ProtoReflect())"
+			e.get = []string{"if (" + O + " == nil) {return " + z + "} else if %v, %ok := " + O + ".(*" + W + "); %ok {return protoreflect.ValueOfMessage(%v." + F + ".ProtoReflect())} else {return " + z + "}"}
+			e.set = cross(O+" = &"+W+"{"+F+": ", unwrapV(k, "$2", T), "}")
+			fresh := "%t1 := &" + MT + "{}; " + O + " = &" + W + "{" + F + ": %t1}; return protoreflect.ValueOfMessage(%t1.ProtoReflect())"
+			fresh2 := "%t2 := &" + MT + "{}; " + O + " = &" + W + "{" + F + ": %t2}; return protoreflect.ValueOfMessage(%t2.ProtoReflect())"
+			e.mutable = []string{"if (" + O + " == nil) {" + fresh + "}; typeswitch %w := " + O + ".(type) {case *" + W + ": return protoreflect.ValueOfMessage(%w." + F + ".ProtoReflect()) | default: " + fresh2 + "}"}
+			e.newField = []string{"return protoreflect.ValueOfMessage(&" + MT + "{}.ProtoReflect())", "return protoreflect.ValueOfMessage(new(" + MT + ").ProtoReflect())"}
+		} else {
+			for _, z := range zeroLit(k, T) {
+				zv := wrapV(k, z)
+				if k == protoreflect.EnumKind {
+					zv = "protoreflect.ValueOfEnum(" + z + ")"
+					e.get = append(e.get, "if ("+O+" == nil) {return "+zv+"} else if %v, %ok := "+O+".(*"+W+"); %ok {return "+wrapV(k, "%v."+F)+"} else {return "+zv+"}")
+					zv2 := "protoreflect.ValueOfEnum(protoreflect.EnumNumber(" + z + "))"
+					e.get = append(e.get, "if ("+O+" == nil) {return "+zv2+"} else if %v, %ok := "+O+".(*"+W+"); %ok {return "+wrapV(k, "%v."+F)+"} else {return "+zv2+"}")
+					e.newField = append(e.newField, "return "+zv, "return "+zv2)
+					continue
+				}
+				e.get = append(e.get, "if ("+O+" == nil) {return "+zv+"} else if %v, %ok := "+O+".(*"+W+"); %ok {return "+wrapV(k, "%v."+F)+"} else {return "+zv+"}")
+				e.newField = append(e.newField, "return "+zv)
+			}
+			e.set = cross(O+" = &"+W+"{"+F+": ", unwrapV(k, "$2", T), "}")
+			e.mutable = []string{"panic"}
+		}
+	default:
+		L := "x." + f.GoName
+		T := f.Var.Type()
+		switch k {
+		case protoreflect.BoolKind:
+			e.has = []string{"return (" + L + " != false)", "return " + L}
+		case protoreflect.FloatKind:
+			e.has = []string{"return ((" + L + " != 0) || math.Signbit(float64(" + L + ")))", "return ((" + L + " != float32(0)) || math.Signbit(float64(" + L + ")))"}
+		case protoreflect.DoubleKind:
+			e.has = []string{"return ((" + L + " != 0) || math.Signbit(" + L + "))", "return ((" + L + " != float64(0)) || math.Signbit(" + L + "))"}
+		case protoreflect.StringKind:
+			e.has = []string{"return (" + L + ` != "")`, "return (len(" + L + ") != 0)", "return (len(" + L + ") > 0)"}
+		case protoreflect.BytesKind:
+			e.has = []string{"return (len(" + L + ") != 0)", "return (len(" + L + ") > 0)"}
+		case protoreflect.MessageKind:
+			e.has = []string{"return (" + L + " != nil)"}
+		default:
+			e.has = cross("return ("+L+" != ", zeroLit(k, T), ")")
+		}
+		e.clear = cross(L+" = ", zeroLit(k, T), "")
+		e.get = []string{"return " + wrapV(k, L)}
+		e.set = cross(L+" = ", unwrapV(k, "$2", T), "")
+		if k == protoreflect.MessageKind {
+			MT := tq(T.(*types.Pointer).Elem())
+			e.mutable = []string{"if (" + L + " == nil) {" + L + " = new(" + MT + ")}; return protoreflect.ValueOfMessage(" + L + ".ProtoReflect())",
+				"if (" + L + " == nil) {" + L + " = &" + MT + "{}}; return protoreflect.ValueOfMessage(" + L + ".ProtoReflect())"}
+			e.newField = []string{"return protoreflect.ValueOfMessage(new(" + MT + ").ProtoReflect())", "return protoreflect.ValueOfMessage(&" + MT + "{}.ProtoReflect())"}
+		} else {
+			e.mutable = []string{"panic"}
+			for _, z := range zeroLit(k, T) {
+				if k == protoreflect.EnumKind {
+					e.newField = append(e.newField, "return protoreflect.ValueOfEnum("+z+")", "return protoreflect.ValueOfEnum(protoreflect.EnumNumber("+z+"))")
+				} else {
+					e.newField = append(e.newField, "return "+wrapV(k, z))
+				}
+			}
+		}
+	}
+	return e, nil
+}
+
+// RunAcc decides ACC.* (accessor conformance) on every generated message type.
+func RunAcc(c *core.Ctx) {
+	nArms := 0
+	for _, g := range sources(c) {
+		src := g.Source
+		fdVars := fdVarMap(g)
+		for _, m := range g.Msgs {
+			type meth struct {
+				name string
+				pick func(accExpect) []string
+			}
+			for _, mt := range []meth{
+				{"Has", func(e accExpect) []string { return e.has }},
+				{"Clear", func(e accExpect) []string { return e.clear }},
+				{"Get", func(e accExpect) []string { return e.get }},
+				{"Set", func(e accExpect) []string { return e.set }},
+				{"Mutable", func(e accExpect) []string { return e.mutable }},
+				{"NewField", func(e accExpect) []string { return e.newField }},
+			} {
+				fd := m.Methods[mt.name]
+				con := fmt.Sprintf("%s.%s", m.Q(), mt.name)
+				if fd == nil {
+					c.Fail("ACC.arms", con, "method not found", "", src)
+					continue
+				}
+				sw := nameSwitch(fd)
+				if sw == nil {
+					c.Undec("ACC.arms", con, "no switch on the field's full name", pos(c, g, fd.Pos()), src)
+					continue
+				}
+				am, def, dups := arms(sw)
+				var missing, extra []string
+				want := map[string]bool{}
+				for _, f := range m.Fields {
+					want[string(f.Desc.FullName())] = true
+					if am[string(f.Desc.FullName())] == nil {
+						missing = append(missing, string(f.Desc.Name()))
+					}
+				}
+				for l := range am {
+					if !want[l] {
+						extra = append(extra, l)
+					}
+				}
+				sort.Strings(extra)
+				defOK := def != nil && alwaysPanics(&ast.BlockStmt{List: def.Body})
+				c.Check(len(missing) == 0 && len(extra) == 0 && len(dups) == 0 && defOK && len(fd.Body.List) == 1, "ACC.arms", con,
+					fmt.Sprintf("%d arms = %d schema fields; unknown descriptors panic", len(am), len(m.Fields)),
+					fmt.Sprintf("fields without arm %v; arms for names not in the schema %v; duplicate labels %v; default arm panics on every path: %v; statements besides the switch: %d", missing, extra, dups, defOK, len(fd.Body.List)-1), pos(c, g, fd.Pos()), src)
+				for _, f := range m.Fields {
+					cc := am[string(f.Desc.FullName())]
+					if cc == nil {
+						continue
+					}
+					nArms++
+					fcon := fmt.Sprintf("%s.%s %s", m.Q(), mt.name, fieldTag(f))
+					ex, err := expectFor(g, f)
+					if err != nil {
+						c.Undec("ACC."+strings.ToLower(mt.name), fcon, err.Error(), pos(c, g, cc.Pos()), src)
+						continue
+					}
+					cn := newCanon(g.Info, fd)
+					got := cn.stmts(cc.Body)
+					if cn.err != "" {
+						c.Undec("ACC."+strings.ToLower(mt.name), fcon, "arm not canonicalisable: "+cn.err, pos(c, g, cc.Pos()), src)
+						continue
+					}
+					alts := mt.pick(ex)
+					if mt.name == "Clear" && f.Oneof != nil && got == ex.clearBug {
+						c.Fail("ACC.clearoneof", fcon, "Clear of a oneof member empties the oneof unconditionally: clearing a member that is not the one set destroys the member that is", pos(c, g, cc.Pos()), src)
+						continue
+					}
+					rule := "ACC." + strings.ToLower(mt.name)
+					if mt.name == "Clear" && f.Oneof != nil {
+						rule = "ACC.clearoneof"
+					}
+					c.Check(in(got, alts), rule, fcon, got, fmt.Sprintf("arm does: %s ; expected: %s", got, alts[0]), pos(c, g, cc.Pos()), src)
+				}
+			}
+			runRange(c, g, m, fdVars)
+			runWhichOneof(c, g, m)
+		}
+		runViews(c, g)
+	}
+	c.Stat("ACC arms", nArms)
+}
+
+func fieldTag(f *model.Field) string {
+	return fmt.Sprintf("#%d(%s)", f.Desc.Number(), model.Shape(f.Desc))
+}
+
+// fdVarMap: package variable fd_X -> (message full name, field name), from the init functions
+// `fd_X = md_M.Fields().ByName("f")` with `md_M = <File>.Messages().ByName("M")…`.
+func fdVarMap(g *model.GenPkg) map[types.Object]string {
+	out := map[types.Object]string{}
+	md := map[types.Object]string{} // md var -> message path "A" / "A.B"
+	for _, file := range g.Files {
+		for _, d := range file.Decls {
+			fd, ok := d.(*ast.FuncDecl)
+			if !ok || fd.Name.Name != "init" || fd.Recv != nil || fd.Body == nil {
+				continue
+			}
+			for _, s := range fd.Body.List {
+				as, ok := s.(*ast.AssignStmt)
+				if !ok || len(as.Lhs) != 1 || len(as.Rhs) != 1 {
+					continue
+				}
+				id, ok := as.Lhs[0].(*ast.Ident)
+				if !ok {
+					continue
+				}
+				o := g.Info.ObjectOf(id)
+				// chain of .Messages().ByName("X") / .Fields().ByName("f")
+				var names []string
+				kind := ""
+				x := as.Rhs[0]
+				base := ""
+				for {
+					call, ok := x.(*ast.CallExpr)
+					if !ok {
+						break
+					}
+					sel, ok := call.Fun.(*ast.SelectorExpr)
+					if !ok || sel.Sel.Name != "ByName" || len(call.Args) != 1 {
+						break
+					}
+					bl, ok := call.Args[0].(*ast.BasicLit)
+					if !ok {
+						break
+					}
+					nm, _ := strconv.Unquote(bl.Value)
+					inner, ok := sel.X.(*ast.CallExpr)
+					if !ok {
+						break
+					}
+					isel, ok := inner.Fun.(*ast.SelectorExpr)
+					if !ok {
+						break
+					}
+					if kind == "" {
+						kind = isel.Sel.Name
+					}
+					names = append([]string{nm}, names...)
+					x = isel.X
+					if bid, ok := x.(*ast.Ident); ok {
+						if p, ok := md[g.Info.ObjectOf(bid)]; ok {
+							base = p
+						}
+						break
+					}
+				}
+				if len(names) == 0 {
+					continue
+				}
+				path := strings.Join(names, ".")
+				if base != "" {
+					path = base + "." + path
+				}
+				if kind == "Fields" {
+					out[o] = path // "A.enum" relative to the file package
+				} else {
+					md[o] = path
+				}
+			}
+		}
+	}
+	return out
+}
+
+// runRange checks Range: one block per non-oneof field guarded by its presence predicate,
+// one block per oneof with one arm per member; f is called with the field's own descriptor variable
+// and the same value Get returns; the callback's false stops the iteration.
+func runRange(c *core.Ctx, g *model.GenPkg, m *model.Msg, fdVars map[types.Object]string) {
+	src := g.Source
+	fd := m.Methods["Range"]
+	if fd == nil {
+		return
+	}
+	cn := newCanon(g.Info, fd)
+	// canonical per top-level statement
+	var blocks []string
+	for _, s := range fd.Body.List {
+		blocks = append(blocks, cn.stmts([]ast.Stmt{s}))
+	}
+	if cn.err != "" {
+		c.Undec("ACC.range", m.Q()+".Range", "not canonicalisable: "+cn.err, pos(c, g, fd.Pos()), src)
+		return
+	}
+	pkgPrefix := ""
+	if p := string(m.Desc.ParentFile().Package()); p != "" {
+		pkgPrefix = p + "."
+	}
+	// the fd variable that maps to a field
+	varFor := func(f *model.Field) string {
+		want := strings.TrimPrefix(string(f.Desc.FullName()), pkgPrefix)
+		var names []string
+		for o, p := range fdVars {
+			if p == want {
+				names = append(names, o.Name())
+			}
+		}
+		sort.Strings(names)
+		if len(names) == 0 {
+			return "?fd"
+		}
+		return names[0]
+	}
+	used := make([]bool, len(blocks))
+	take := func(alts []string) (string, bool) {
+		for i, b := range blocks {
+			if !used[i] && in(b, alts) {
+				used[i] = true
+				return b, true
+			}
+		}
+		return "", false
+	}
+	for _, f := range m.Fields {
+		if f.Oneof != nil {
+			continue
+		}
+		con := fmt.Sprintf("%s.Range %s", m.Q(), fieldTag(f))
+		ex, err := expectFor(g, f)
+		if err != nil {
+			c.Undec("ACC.range", con, err.Error(), pos(c, g, fd.Pos()), src)
+			continue
+		}
+		V := varFor(f)
+		var alts []string
+		for _, h := range ex.has {
+			cond := strings.TrimPrefix(h, "return ")
+			var val string
+			switch {
+			case f.Desc.IsList() || f.Desc.IsMap():
+				vt, vf := viewType(g, f)
+				ctor := "protoreflect.ValueOfList"
+				if f.Desc.IsMap() {
+					ctor = "protoreflect.ValueOfMap"
+				}
+				val = ctor + "(&" + tq(vt) + "{" + vf + ": &x." + f.GoName + "})"
+			default:
+				val = wrapV(f.Desc.Kind(), "x."+f.GoName)
+			}
+			alts = append(alts, "if "+cond+" {if !$1("+V+", "+val+") {return }}")
+		}
+		if _, ok := take(alts); ok {
+			c.Ok("ACC.range", con, "visited once, under its presence predicate, with its own descriptor and the value Get returns; a false callback stops the iteration", pos(c, g, fd.Pos()), src)
+		} else {
+			near := ""
+			for i, b := range blocks {
+				if !used[i] && strings.Contains(b, "x."+f.GoName) {
+					near = b
+				}
+			}
+			c.Fail("ACC.range", con, fmt.Sprintf("no Range block equals %s (closest: %s)", alts[0], clip(near, 300)), pos(c, g, fd.Pos()), src)
+		}
+	}
+	for _, o := range m.Oneofs {
+		con := fmt.Sprintf("%s.Range oneof %s", m.Q(), o.Desc.Name())
+		O := "x." + o.GoName
+		var armsS []string
+		for _, f := range o.Members {
+			armsS = append(armsS, "case *"+tq(f.Wrapper)+": if !$1("+varFor(f)+", "+wrapV(f.Desc.Kind(), "%w."+f.GoName)+") {return }")
+		}
+		want := "if (" + O + " != nil) {typeswitch %w := " + O + ".(type) {" + strings.Join(armsS, " | ") + "}}"
+		if _, ok := take([]string{want}); ok {
+			c.Ok("ACC.range", con, "the set member (and only it) is visited with its own descriptor", pos(c, g, fd.Pos()), src)
+		} else {
+			near := ""
+			for i, b := range blocks {
+				if !used[i] && strings.Contains(b, O) {
+					near = b
+				}
+			}
+			c.Fail("ACC.range", con, fmt.Sprintf("no Range block equals %s (closest: %s)", clip(want, 400), clip(near, 400)), pos(c, g, fd.Pos()), src)
+		}
+	}
+	var extra []string
+	for i, b := range blocks {
+		if !used[i] {
+			extra = append(extra, clip(b, 120))
+		}
+	}
+	c.Check(len(extra) == 0, "ACC.range", m.Q()+".Range total", "every block belongs to exactly one field or oneof (each populated field is visited exactly once)", "Range has blocks that match no schema field: "+strings.Join(extra, " ; "), pos(c, g, fd.Pos()), src)
+}
+
+func clip(s string, n int) string {
+	if len(s) > n {
+		return s[:n] + "…"
+	}
+	return s
+}
+
+func runWhichOneof(c *core.Ctx, g *model.GenPkg, m *model.Msg) {
+	src := g.Source
+	fd := m.Methods["WhichOneof"]
+	if fd == nil {
+		c.Fail("ACC.whichoneof", m.Q()+".WhichOneof", "method not found", "", src)
+		return
+	}
+	sw := nameSwitch(fd)
+	if sw == nil {
+		c.Undec("ACC.whichoneof", m.Q()+".WhichOneof", "no switch on the oneof's full name", pos(c, g, fd.Pos()), src)
+		return
+	}
+	am, def, _ := arms(sw)
+	c.Check(len(am) == len(m.Oneofs) && def != nil && alwaysPanics(&ast.BlockStmt{List: def.Body}), "ACC.whichoneof", m.Q()+".WhichOneof arms",
+		fmt.Sprintf("%d arms = %d oneofs", len(am), len(m.Oneofs)), fmt.Sprintf("%d arms for %d oneofs (or the default arm does not panic)", len(am), len(m.Oneofs)), pos(c, g, fd.Pos()), src)
+	for _, o := range m.Oneofs {
+		con := fmt.Sprintf("%s.WhichOneof %s", m.Q(), o.Desc.Name())
+		cc := am[string(o.Desc.FullName())]
+		if cc == nil {
+			c.Fail("ACC.whichoneof", con, "no arm for this oneof", pos(c, g, fd.Pos()), src)
+			continue
+		}
+		cn := newCanon(g.Info, fd)
+		got := cn.stmts(cc.Body)
+		O := "x." + o.GoName
+		var as []string
+		for _, f := range o.Members {
+			as = append(as, "case *"+tq(f.Wrapper)+": return x.Descriptor().Fields().ByName(\""+string(f.Desc.Name())+"\")")
+		}
+		want := "if (" + O + " == nil) {return nil}; typeswitch " + O + ".(type) {" + strings.Join(as, " | ") + "}"
+		c.Check(got == want && cn.err == "", "ACC.whichoneof", con, "nil when unset, else the descriptor of the member whose wrapper is held", fmt.Sprintf("arm does: %s ; expected: %s", clip(got, 400), clip(want, 400)), pos(c, g, cc.Pos()), src)
+	}
+}
+
+// DumpViews prints canonical view methods (development aid).
+func DumpViews(c *core.Ctx, only string) {
+	for _, g := range sources(c) {
+		if g.Name != only {
+			continue
+		}
+		var ks []string
+		for k := range g.Funcs {
+			if len(k) > 1 && k[0] == '_' {
+				ks = append(ks, k)
+			}
+		}
+		sort.Strings(ks)
+		for _, k := range ks {
+			cn := newCanon(g.Info, g.Funcs[k])
+			fmt.Printf("VIEW %-40s %s %s\n", k, cn.stmts(g.Funcs[k].Body.List), cn.err)
+		}
+	}
+}
+
+
+// wrapAlts: accepted Value constructors for an expression of the kind.
+func wrapAlts(k protoreflect.Kind, e string) []string {
+	if k == protoreflect.EnumKind {
+		return []string{wrapV(k, e), "protoreflect.ValueOfEnum(" + e + ".Number())"}
+	}
+	return []string{wrapV(k, e)}
+}
+
+func keyUnwrap(k protoreflect.Kind) string {
+	switch k {
+	case protoreflect.BoolKind:
+		return "$1.Bool()"
+	case protoreflect.Int32Kind, protoreflect.Sint32Kind, protoreflect.Sfixed32Kind:
+		return "int32($1.Int())"
+	case protoreflect.Int64Kind, protoreflect.Sint64Kind, protoreflect.Sfixed64Kind:
+		return "$1.Int()"
+	case protoreflect.Uint32Kind, protoreflect.Fixed32Kind:
+		return "uint32($1.Uint())"
+	case protoreflect.Uint64Kind, protoreflect.Fixed64Kind:
+		return "$1.Uint()"
+	case protoreflect.StringKind:
+		return "$1.String()"
+	}
+	return "?"
+}
+
+// newValueForms: forms of a detached default value of the kind.
+func newValueForms(k protoreflect.Kind, T types.Type) []string {
+	switch k {
+	case protoreflect.MessageKind:
+		MT := tq(T.(*types.Pointer).Elem())
+		return []string{"return protoreflect.ValueOfMessage(new(" + MT + ").ProtoReflect())", "return protoreflect.ValueOfMessage(&" + MT + "{}.ProtoReflect())"}
+	case protoreflect.BytesKind:
+		return []string{"var %t1 []byte; return protoreflect.ValueOfBytes(%t1)", "return protoreflect.ValueOfBytes(nil)", "return protoreflect.ValueOfBytes([]byte(nil))"}
+	case protoreflect.EnumKind:
+		return []string{"return protoreflect.ValueOfEnum(protoreflect.EnumNumber(0))", "return protoreflect.ValueOfEnum(0)"}
+	}
+	var out []string
+	for _, z := range zeroLit(k, T) {
+		out = append(out, "return "+wrapV(k, z))
+	}
+	return out
+}
+
+// runViews checks every method of every list/map view type against the forms for its element kinds.
+func runViews(c *core.Ctx, g *model.GenPkg) {
+	src := g.Source
+	for _, m := range g.Msgs {
+		for _, f := range m.Fields {
+			if !(f.Desc.IsList() || f.Desc.IsMap()) {
+				continue
+			}
+			vt, vf := viewType(g, f)
+			if vt == nil {
+				c.Fail("ACC.view", f.Q()+" view type", "view type not found", "", src)
+				continue
+			}
+			vn := vt.Obj().Name()
+			// the view's backing field must be a pointer to the field's Go type
+			okBack := false
+			if st, ok := vt.Underlying().(*types.Struct); ok && st.NumFields() == 1 && st.Field(0).Name() == vf {
+				if pt, ok := st.Field(0).Type().(*types.Pointer); ok && types.Identical(pt.Elem(), f.Var.Type()) {
+					okBack = true
+				}
+			}
+			c.Check(okBack, "ACC.view", f.Q()+" view backing", "single field *"+tq(f.Var.Type()), "view struct does not hold a pointer to the field's Go type", "", src)
+			exp := map[string][]string{}
+			B := "*x." + vf
+			if f.Desc.IsList() {
+				k := f.Desc.Kind()
+				E := f.Var.Type().(*types.Slice).Elem()
+				exp["Len"] = []string{"if (x.list == nil) {return 0}; return len(" + B + ")"}
+				exp["IsValid"] = []string{"return (x.list != nil)"}
+				exp["Get"] = cross("return ", wrapAlts(k, B+"[$1]"), "")
+				exp["Set"] = cross(B+"[$1] = ", unwrapV(k, "$2", E), "")
+				exp["Append"] = cross(B+" = append("+B+", ", unwrapV(k, "$1", E), ")")
+				exp["Truncate"] = []string{B + " = " + B + "[:$1]"}
+				exp["AppendMutable"] = []string{"panic"}
+				if k == protoreflect.MessageKind {
+					MT := tq(E.(*types.Pointer).Elem())
+					exp["Truncate"] = []string{"for %i := $1; (%i < len(" + B + ")); %i++ {" + B + "[%i] = nil}; " + B + " = " + B + "[:$1]"}
+					exp["AppendMutable"] = []string{"%t1 := new(" + MT + "); " + B + " = append(" + B + ", %t1); return protoreflect.ValueOfMessage(%t1.ProtoReflect())",
+						"%t1 := &" + MT + "{}; " + B + " = append(" + B + ", %t1); return protoreflect.ValueOfMessage(%t1.ProtoReflect())"}
+				}
+				exp["NewElement"] = newValueForms(k, E)
+			} else {
+				kk, vk := f.Desc.MapKey().Kind(), f.Desc.MapValue().Kind()
+				mt := f.Var.Type().(*types.Map)
+				V := mt.Elem()
+				key := keyUnwrap(kk)
+				exp["Len"] = []string{"if (x.m == nil) {return 0}; return len(" + B + ")"}
+				exp["IsValid"] = []string{"return (x.m != nil)"}
+				for _, w := range wrapAlts(vk, "%v") {
+					exp["Range"] = append(exp["Range"], "if (x.m == nil) {return }; range %k, %v := "+B+" {if !$1(protoreflect.MapKey("+wrapV(kk, "%k")+"), "+w+") {break}}")
+				}
+				exp["Has"] = []string{"if (x.m == nil) {return false}; %t1, %t2 := " + B + "[" + key + "]; return %t2"}
+				exp["Clear"] = []string{"if (x.m == nil) {return }; delete(" + B + ", " + key + ")"}
+				exp["Get"] = cross("if (x.m == nil) {return protoreflect.Value{}}; %t1, %t2 := "+B+"["+key+"]; if !%t2 {return protoreflect.Value{}}; return ", wrapAlts(vk, "%t1"), "")
+				exp["Set"] = cross("if (!$1.IsValid() || !$2.IsValid()) {panic}; "+B+"["+key+"] = ", unwrapV(vk, "$2", V), "")
+				exp["Mutable"] = []string{"panic"}
+				if vk == protoreflect.MessageKind {
+					MT := tq(V.(*types.Pointer).Elem())
+					exp["Mutable"] = []string{"%t1, %t2 := " + B + "[" + key + "]; if %t2 {return protoreflect.ValueOfMessage(%t1.ProtoReflect())}; %t3 := new(" + MT + "); " + B + "[" + key + "] = %t3; return protoreflect.ValueOfMessage(%t3.ProtoReflect())"}
+				}
+				exp["NewValue"] = newValueForms(vk, V)
+			}
+			var names []string
+			for n := range exp {
+				names = append(names, n)
+			}
+			sort.Strings(names)
+			for _, n := range names {
+				fd := g.Funcs[vn+"."+n]
+				con := fmt.Sprintf("%s %s.%s", f.Q(), vn, n)
+				if fd == nil {
+					c.Fail("ACC.view", con, "method not found", "", src)
+					continue
+				}
+				cn := newCanon(g.Info, fd)
+				got := cn.stmts(fd.Body.List)
+				if cn.err != "" {
+					c.Undec("ACC.view", con, "not canonicalisable: "+cn.err, pos(c, g, fd.Pos()), src)
+					continue
+				}
+				c.Check(in(got, exp[n]), "ACC.view", con, got, fmt.Sprintf("method does: %s ; expected: %s", clip(got, 400), clip(exp[n][0], 400)), pos(c, g, fd.Pos()), src)
+			}
+		}
+	}
 }
